@@ -82,16 +82,29 @@ class G:
         return w
 
 
-def expected_leaves(a, path=()):
-    """(key, $index, $value) of every leaf act a generator must open, exactly once each"""
+def expansion_requests(a, out):
+    """one `c16.expand` request per generator (nested ones too): the Lean definition the theorems are about is the oracle"""
+    keys = [sub["key"] if sub["uses"] not in (PAR, SEQ) else "#gen%d" % j for j, sub in enumerate(a["params"]["acts"])]
+    out.append({"cmd": "c16.expand", "items": a["params"]["in"], "acts": keys})
+    for sub in a["params"]["acts"]:
+        if sub["uses"] in (PAR, SEQ):
+            expansion_requests(sub, out)
+
+
+def expected_leaves(a, answers):
+    """(key, uses, $index, $value) of every leaf act a generator must open, from the expansions computed by the Lean model
+    (`answers` is consumed in the order `expansion_requests` produced them)"""
+    groups = answers.pop(0)["groups"]
+    subs = {("#gen%d" % j): sub for j, sub in enumerate(a["params"]["acts"]) if sub["uses"] in (PAR, SEQ)}
+    uses = {sub["key"]: sub["uses"] for sub in a["params"]["acts"] if sub["uses"] not in (PAR, SEQ)}
+    inner = {k: expected_leaves(sub, answers) for k, sub in subs.items()}
     out = []
-    items = a["params"]["in"]
-    for k, v in enumerate(items):
-        for sub in a["params"]["acts"]:
-            if sub["uses"] in (PAR, SEQ):
-                out += expected_leaves(sub, path + ((k, v),))
+    for g in groups:
+        for key, idx, val in g:
+            if key in subs:
+                out += inner[key]
             else:
-                out.append((sub["key"], sub["uses"], k, v))
+                out.append((key, uses[key], idx, val))
     return out
 
 
@@ -153,7 +166,7 @@ def analyse(sc, res):
             if not inst:
                 continue
             gt = inst[0]
-            exp = Counter(expected_leaves(a))
+            exp = Counter(expected_leaves(a, list(sc["_expand"][a["id"]])))
             stats["groups"] += len(a["params"]["in"])
             keys = {k for k, _, _, _ in exp} | {sub["key"] for sub in all_leaf_specs(a)}
             started = Counter()
@@ -241,36 +254,40 @@ def analyse(sc, res):
             continue
         created[tid] = 1
         completed[tid] = sum(1 for x in seq if x in DONE)
-    expect = Counter()
+    # which hooks the events reach is computed by the Lean model (`fires` over the translated class tables)
+    def evs(tid):
+        """lifecycle events of a task, as the states they report"""
+        if not created[tid]:
+            return []
+        seq = [new for _, old, new in trs[tid]]
+        first = next((x for x in reversed(seq[:2]) if x in ("ready", "interrupted", "pending")), "ready")
+        return [first] + [x for x in seq if x in DONE]
+
+    hook_reqs = []
     for key, (nid, kind, on) in sc["hooks"].items():
+        own, acts_, steps_ = [], [], []
         for t in by_nid.get(nid, []):
             tid = t["tid"]
             if not created[tid]:
                 continue
-            if on == "created":
-                expect[key] += created[tid]
-            elif on == "completed":
-                expect[key] += completed[tid]
-            elif on in ("before_update", "updated") and kind in ("step", "workflow"):
+            own += evs(tid)
+            if kind in ("step", "workflow"):
                 for aid, at in tasks.items():
-                    if at["kind"] != "act" or aid in hook_tids or not created[aid]:
+                    if at["kind"] != "act" or aid in hook_tids:
                         continue
                     if (kind == "workflow" and tid == root) or (kind == "step" and nearest_step(aid) == tid):
-                        expect[key] += created[aid] if on == "before_update" else completed[aid]
-            elif on == "step":
-                if kind == "step":
-                    expect[key] += completed[tid]
-                elif kind == "workflow":
-                    for sid, stt in tasks.items():
-                        if stt["kind"] == "step" and created[sid]:
-                            expect[key] += completed[sid]
-    queue_empty = True
+                        acts_ += evs(aid)
+            if kind == "step":
+                steps_ += evs(tid)
+            elif kind == "workflow":
+                for sid, stt in tasks.items():
+                    if stt["kind"] == "step":
+                        steps_ += evs(sid)
+        hook_reqs.append((key, {"cmd": "c16.fires", "hooks": [[on, key]], "own": own, "acts": acts_, "steps": steps_}))
     for key in sc["hooks"]:
         stats["fires"] += fires[key]
-        if fires[key] != expect[key]:
-            nid, kind, on = sc["hooks"][key]
-            bad.append((f"hook-count|{on}|{kind}|{'more' if fires[key] > expect[key] else 'fewer'}", f"hook {key} (on {on} of {kind} {nid}) fired {fires[key]} times for {expect[key]} matching events"))
-            break
+    stats["_hook_reqs"] = hook_reqs
+    stats["_fires"] = fires
 
     # ---- push
     for st in res.get("steps", []):
@@ -316,20 +333,56 @@ def descendants(tid, news, tasks):
     return out
 
 
+def judge(ctx, scs, results):
+    """runs the monitors of all scenarios; the expansions and the hook dispatch are computed by the Lean driver"""
+    reqs, spans = [], []
+    for sc in scs:
+        sc["_expand"] = {}
+        for s in sc["models"][0]["steps"]:
+            for a in s["acts"]:
+                if a["uses"] in (PAR, SEQ):
+                    r = []
+                    expansion_requests(a, r)
+                    spans.append((sc, a["id"], len(reqs), len(r)))
+                    reqs += r
+    answers = ctx.driver(reqs, tag="dx") if reqs else []
+    for sc, aid, start, n in spans:
+        sc["_expand"][aid] = answers[start:start + n]
+    out = []
+    hook_reqs, where = [], []
+    for sc, res in zip(scs, results):
+        if res.get("panic"):
+            out.append(([("engine-panic", f"engine panicked: {str(res['panic'])[:120]}")], {}))
+            continue
+        bad, stats = analyse(sc, res)
+        for key, rq in stats.pop("_hook_reqs", []):
+            where.append((len(out), key))
+            hook_reqs.append(rq)
+        out.append((bad, stats))
+    verdicts = ctx.driver(hook_reqs, tag="dh") if hook_reqs else []
+    for (k, key), vd in zip(where, verdicts):
+        bad, stats = out[k]
+        fires = stats["_fires"]
+        expect = sum(1 for lst in ("own", "acts", "steps") for x in vd.get(lst, []) if x == key)
+        if fires[key] != expect and not any(b[0].startswith("hook-count") for b in bad):
+            nid, kind, on = scs[k]["hooks"][key]
+            bad.append((f"hook-count|{on}|{kind}|{'more' if fires[key] > expect else 'fewer'}", f"hook {key} (on {on} of {kind} {nid}) fired {fires[key]} times for {expect} matching events"))
+    for bad, stats in out:
+        stats.pop("_fires", None)
+    return out
+
+
 def run(ctx):
     ctx.check_theorems("ActsModel.Props.C16")
     n = 250 if ctx.tier == "quick" else 5000
     scs = [gen_scenario(ctx.seed, i, ctx.tier) for i in range(n)]
     results = ctx.harness("run", [{k: v for k, v in sc.items() if k not in ("hooks", "policy")} for sc in scs])
     tot = Counter()
-    for sc, res in zip(scs, results):
+    for sc, (bad, stats) in zip(scs, judge(ctx, scs, results)):
         ctx.cov["evaluations"] += 1
-        if res.get("panic"):
-            ctx.violation("C16|engine-panic", f"engine panicked: {str(res['panic'])[:120]}", {"scenario": sc})
-            continue
-        bad, stats = analyse(sc, res)
         for k, v in stats.items():
             tot[k] += int(v)
+        sc.pop("_expand", None)
         if bad:
             ctx.cov["monitor_failures"] += 1
             sig, what = bad[0]
@@ -337,7 +390,7 @@ def run(ctx):
         elif stats.get("groups") or stats.get("fires") or stats.get("pushes"):
             ctx.nontrivial([sc["models"], sc["ops"]])
     ctx.sample({"model": scs[0]["models"][0], "ops": scs[0]["ops"][:5]}, limit=1)
-    ctx.cov["correspondence"] = {"distribution": dict(tot), "streams_compared": ["messages of generated acts ($index/$value, order, round) against the expansion of the generator's list", "hook messages against lifecycle events read off the transitions",
+    ctx.cov["correspondence"] = {"distribution": dict(tot), "streams_compared": ["messages of generated acts ($index/$value, order, round) against `Generate.expand` evaluated by the Lean driver", "hook messages against `Generate.fires` (Lean) over the lifecycle events read off the transitions",
                                                                                "tasks created by a push"]}
     ctx.cov["rule"] = ("workflows with parallel / sequence generators over lists of 0..4 elements, 1..3 acts per group, one level of nested generators, lifecycle hooks (five events) on workflow / steps / acts, "
                        "pushes into steps; interrupts answered in seeded orders under FIFO / LIFO / random release orders; non-trivial = a run with generated groups, hook firings or pushes")
@@ -349,6 +402,6 @@ def run(ctx):
 def replay(ctx, data):
     ctx.build([])
     sc = data["replay"]["scenario"]
-    res = ctx.harness("run", [{k: v for k, v in sc.items() if k not in ("hooks", "policy")}])[0]
-    print(analyse(sc, res))
+    res = ctx.harness("run", [{k: v for k, v in sc.items() if k not in ("hooks", "policy", "_expand")}])[0]
+    print(judge(ctx, [sc], [res])[0][0])
     return 0
